@@ -10,7 +10,7 @@ from ..build import Builder
 PID = "C10"
 LEVEL = "exploration"
 RULE = ("(a) enumerated: bundle definition trees of depth <=2 and fan-out <=2 with every assignment of the six leaf kinds "
-        "(input, output, inout, undirected port, role-directed, plain, plain with a direction attribute but no port visibility), roles "
+        "(input, output, inout, undirected port, role-directed, inout or undirected port that carries roles as well, plain, plain with a direction attribute but no port visibility), roles "
         "given as the role set's own objects or as fresh equal Role objects, leaf width in {1,3}, flip state at each level written "
         "as constructor flag, flipped(), double applications and `2 * B(flipped=..)`, role in {none, source, sink, unrelated}, port vs internal "
         "instantiation (quick: a fixed systematic sub-family; thorough: all); (b) Hypothesis: trees of depth <=3, fan-out <=3, "
@@ -23,7 +23,9 @@ ASSUME = ["when two member paths join to one flat name (leaf u_x beside sub-bund
           "a leaf that is both a port and role-carrying, and nameless Role() objects, are not generated",
           "port order is not part of the statement: ports are compared as a set"]
 
-DIRMAP = {"in": "INPUT", "out": "OUTPUT", "inout": "INOUT", "port": "NONE"}
+DIRMAP = {"in": "INPUT", "out": "OUTPUT", "inout": "INOUT", "port": "NONE",
+          # declared as a bidirectional / undirected port and carrying roles too: "inouts and undirected leaves stay as they are"
+          "inout_role_ab": "INOUT", "port_role_ab": "NONE"}
 FLIP = {"INPUT": "OUTPUT", "OUTPUT": "INPUT", "INOUT": "INOUT", "NONE": "NONE"}
 
 
@@ -230,7 +232,7 @@ def shard(idx, n, tier):
             nl = draw(st.integers(1, 3))
             # (leaf names that contain an underscore can join to the same flat name as a member of a sub-bundle: u_x beside u.x)
             lnames = draw(st.permutations(["x", "y", "z", "u_x", "v_y", "u_u_x"]))[:nl] if draw(st.integers(0, 3)) == 0 else "xyz"
-            sigs = [[lnames[i], draw(st.integers(1, 8)), draw(st.sampled_from(KINDS + ["role_ba", "plain_dout"]))] for i in range(nl)]
+            sigs = [[lnames[i], draw(st.integers(1, 8)), draw(st.sampled_from(KINDS + ["role_ba", "plain_dout", "inout_role_ab", "port_role_ab"]))] for i in range(nl)]
             subs = []
             if k > 0:
                 for i in range(draw(st.integers(0, 3))):
